@@ -23,6 +23,9 @@ CHECKS.update({
  "C03": ("exploration","runtime oracle: brute-force longest-prefix-match model vs the real Rearranger output (predecessor search) and vs Reader.ResolverLocation/EcsLocation on four compiled configurations",
          "(a) Feeds seeded hostile subnet sets to the real Rearranger and searches its points exactly as the RocksDB driver does; (b) compiles the same kind of sets with M/8/% lines to CDB (combined and per-family prefix sets), RocksDB v1 and v2 and queries the real readers; both are compared, location and matched length, with a brute-force LPM oracle and an independent name->map model (exact before nearest wildcard, root wildcard, wildcard not applying to its apex, default map).",
          "Trusts the harness LPM/name-map models. Client prefixes have zero host bits. One open finding (IPv6 subnets containing the IPv4-mapped block) is suppressed by predicate.","4/C03"),
+ "C01": ("exploration","runtime oracle: reference resolver on the structured file description vs responses of the real compile->store->serve path on three storage configurations",
+         "Generates well-formed data files from a structured description (all line types, syntactic variety, zones/delegations/wildcards/locations/maps), compiles each with the real compilers to CDB, RocksDB v1 and v2, loads them into the real handler and sends generated queries from clients of every location; rcode, AA, answer, SOA-on-empty and referral NS+glue are compared strictly with a reference resolver that never sees codec output, the remaining sections for soundness.",
+         "Trusts the reference resolver (validated by triaging every disagreement) and miekg/dns packing for canonical rdata. Address answers are compared with max-answer >= candidates. DS/ANY/non-IN are left to C02/C13.","4/C01"),
 })
 BUILT = set(CHECKS)
 ALL = [json.loads(l)["id"] for l in open("properties.jsonl")]
